@@ -1,7 +1,7 @@
 /-
 Race exactness on the WAIT fragment, part 13: the thread epilogue.  The notification of the joiner (`notifyEffect`
-on the `JoinHandle` notify) publishes the thread's final causality and lets every thread that is past the branch
-point of the `join` of this thread acquire it at once.
+on the `JoinHandle` notify) publishes the thread's final causality in the object's clock; the joiner acquires it
+in the second half of its wait (`Notify::notify` itself only wakes: repair of finding F26).
 -/
 import LoomVerif.Proofs.Race2Thread
 
@@ -211,20 +211,13 @@ theorem notify_transfer2 (hRC : RC2 w s) (hact : w.tid < w.ctl.length) (hnone : 
     (hp : w'.prog = w.prog) (hs : w'.spawned = w.spawned) (hn : nthr w' = nthr w)
     (hctl : ∀ i, w'.ctlOf i = if i = w.tid then { w.ctlOf w.tid with fin := 10 } else w.ctlOf i)
     {X : Obj} (hobjs : w'.exec.objs = w.exec.objs.set n X) (hX : hbOf X = tcaus w w.tid)
-    (hcaus : ∀ i, tcaus w' i =
-      if i < nthr w ∧ i ≠ w.tid ∧ topo w i = some n then (tcaus w i).join (tcaus w w.tid) else tcaus w i)
+    (hcaus : ∀ i, tcaus w' i = tcaus w i)
     (hrel : ∀ i, trel w' i = trel w i) (htopo : ∀ i, topo w' i = topo w i)
     (huc : ∀ i, tuc w' i = tuc w i) (htok : ∀ i, ttok w' i = ttok w i) :
     TwinInv w' ∧ TwinInv2 w' ∧ LinkT2 w' σT mT := by
   obtain ⟨hT, hO⟩ := unpack hRC.inv hRC.inv2 hLT
   have ht := nthr_tid2 hRC hact
   have hnlt := sp_lt2 hRC.r hmem
-  -- the threads that acquire at once are past the branch point of the `join` of this thread
-  have hA : ∀ i, i < nthr w → i ≠ w.tid → topo w i = some n → pend w i = some n := by
-    intro i hi hne ho
-    rcases hRC.inv.jo i b w.tid n hi ho hmem hne with h | h
-    · exact h
-    · omega
   have hctlne : ∀ i, i ≠ w.tid → w'.ctlOf i = w.ctlOf i := by intro i hi; rw [hctl, if_neg hi]
   have hfin : ∀ j, fin w' j = if j = w.tid then 10 else fin w j := by
     intro j
@@ -251,7 +244,7 @@ theorem notify_transfer2 (hRC : RC2 w s) (hact : w.tid < w.ctl.length) (hnone : 
   have hlen : w.exec.objs.length ≤ w'.exec.objs.length := by rw [hobjs]; simp
   have hso : ∀ n', n' ≠ n → SameObj w.exec.objs w'.exec.objs n' := by
     intro n' hn'; rw [hobjs]; exact SameObj.set_ne _ _ hn'
-  have hcausT : tcaus w' w.tid = tcaus w w.tid := by rw [hcaus, if_neg (fun hh => hh.2.1 rfl)]
+  have hcausT : tcaus w' w.tid = tcaus w w.tid := hcaus _
   refine assemble hRC hLT hp hs hn hlen hctlne (by unfold body; rw [hctl, if_pos rfl])
     (fun h => hfinMono _ h)
     (self_finished hRC hact hnone hLT hs hlen hctl ⟨hcausT, hrel _, huc _, htok _⟩ (htopo _))
@@ -260,53 +253,10 @@ theorem notify_transfer2 (hRC : RC2 w s) (hact : w.tid < w.ctl.length) (hnone : 
     (fun k hk => .inl ⟨hso _ (Ne.symm (sp_ne_ntf2 hRC.r hmem hk)), rfl⟩)
     (fun q hq => .inl ⟨hso _ (Ne.symm (sp_ne_chan2 hRC.r hmem hq)), rfl, rfl⟩)
     (fun c hc => .inl ⟨hso _ (Ne.symm (sp_ne_cell2 hRC.r hmem hc)), fun _ => rfl⟩) ?_ (fun _ _ => rfl)
-  · -- the other threads
+  · -- the other threads: nothing the invariant reads changes (a waiting joiner is only woken)
     intro i hi hne
-    by_cases hto : topo w i = some n
-    · right
-      have hTi := hT i hi
-      have hpi := hA i hi hne hto
-      obtain ⟨bj, hopi⟩ := pend_join hpi
-      have hci : tcaus w' i = (tcaus w i).join (tcaus w w.tid) := by rw [hcaus, if_pos ⟨hi, hne, hto⟩]
-      have hpend' : pend w' i = pend w i := pend_congr hp hs (hctlne i hne)
-      have hopi' : opAtI w' i = some (.join bj) := by rw [opAtI_congr hp (hctlne i hne)]; exact hopi
-      have hfi : fin w' i = fin w i := by rw [hfin, if_neg hne]
-      refine ⟨?_, ?_, ?_, ?_, ?_, ?_, ?_⟩
-      · rw [hrel]; exact hTi.rel
-      · intro o ho
-        rw [htopo] at ho
-        exact Nat.lt_of_lt_of_le (hTi.ob o ho) hlen
-      · intro b' j' n' ho hm hij
-        rw [htopo] at ho
-        rw [hs] at hm
-        rw [hpend']
-        rcases hTi.jo b' j' n' ho hm hij with h1 | h1
-        · exact .inl h1
-        · exact .inr (hfinMono j' h1)
-      · rw [hci]; exact le_trans hTi.lo (le_join_left _ _)
-      · rw [hci, pendClk_join hopi']
-        have hold := hTi.hi
-        rw [pendClk_join hopi] at hold
-        have h1 : pendHb w i = VV.zero := by unfold pendHb; rw [hpi]; exact hhbn
-        have h2 : pendHb w' i = tcaus w w.tid := by
-          unfold pendHb; rw [hpend', hpi]
-          show objHb w'.exec.objs n = _
-          rw [hhb, if_pos rfl]
-        rw [h1, join_zero] at hold
-        rw [h2]
-        exact join_mono hold (le_refl _)
-      · intro hf
-        rw [hfi] at hf
-        have hk := hTi.tok hf
-        rw [huc, hp, body_congr (hctlne i hne)]
-        exact ⟨hk.1, le_trans hk.2 (join_mono (by rw [hci]; exact le_join_left _ _) (le_refl _))⟩
-      · intro hf htk
-        rw [hfi] at hf
-        rw [htok] at htk
-        rw [huc]; exact hTi.tokz hf htk
-    · left
-      refine ⟨⟨?_, hrel i, huc i, htok i⟩, htopo i, rfl, fun _ => rfl⟩
-      rw [hcaus, if_neg (fun hh => hto hh.2.2)]
+    left
+    exact ⟨⟨hcaus i, hrel i, huc i, htok i⟩, htopo i, rfl, fun _ => rfl⟩
   · -- the `JoinHandle` clocks
     intro b' j n' hm
     rw [hhb]
@@ -327,46 +277,25 @@ theorem notify_transfer2 (hRC : RC2 w s) (hact : w.tid < w.ctl.length) (hnone : 
       rw [hfin, if_neg hj]
       by_cases h10 : 10 ≤ fin w j
       · rw [if_pos h10, if_pos h10, hcaus]
-        rw [if_neg]
-        intro hh
-        have hjlt := (hRC.r.c.o.y.sp b' j n' hm).1
-        have h1 := hA j hh.1 hh.2.1 hh.2.2
-        rw [pend_none_of_fin2 hRC hjlt (by omega)] at h1
-        cases h1
       · rw [if_neg h10, if_neg h10]
 
 /-- the thread entries after `Notify::notify` on object `n` -/
 theorem notF_readers (w : World) (O : List Obj) (n i : Nat) :
-    tcaus (W2 w O (notF w n)) i =
-      (if i < nthr w ∧ i ≠ w.tid ∧ topo w i = some n then (tcaus w i).join (tcaus w w.tid) else tcaus w i) ∧
+    tcaus (W2 w O (notF w n)) i = tcaus w i ∧
     trel (W2 w O (notF w n)) i = trel w i ∧ topo (W2 w O (notF w n)) i = topo w i ∧
     tuc (W2 w O (notF w n)) i = tuc w i ∧ ttok (W2 w O (notF w n)) i = ttok w i := by
   have hg := W2_get w O (notF w n) i
-  by_cases hi : i < nthr w
-  · rw [if_pos hi] at hg
-    by_cases e : i = w.tid
-    · have h0 : notF w n i (w.ths.get i) = w.ths.get i := by unfold notF; rw [if_pos e]
-      rw [h0] at hg
-      unfold tcaus trel topo tuc ttok
-      rw [hg, if_neg (fun hh => hh.2.1 e)]
-      exact ⟨rfl, rfl, rfl, rfl, rfl⟩
-    · by_cases ha : (w.ths.get i).operation.any (fun op => op.obj == n) = true
-      · have h0 : key5 (notF w n i (w.ths.get i)) =
-            key5 { w.ths.get i with causality := (w.ths.get i).causality.join w.ths.activeT.causality } := by
-          unfold notF; rw [if_neg e, if_pos ha]; exact key5_wake _
-        rw [← hg] at h0
-        obtain ⟨h1, h2, h3, h4, h5⟩ := readers_of_key5 h0
-        rw [if_pos ⟨hi, e, (any_obj _ _).1 ha⟩]
-        exact ⟨h1, h2, h3, h4, h5⟩
-      · have h0 : notF w n i (w.ths.get i) = w.ths.get i := by unfold notF; rw [if_neg e, if_neg ha]
-        rw [h0] at hg
-        unfold tcaus trel topo tuc ttok
-        rw [hg, if_neg (fun hh => ha ((any_obj _ _).2 hh.2.2))]
-        exact ⟨rfl, rfl, rfl, rfl, rfl⟩
-  · rw [if_neg hi] at hg
-    unfold tcaus trel topo tuc ttok
-    rw [hg, if_neg (fun hh => hi hh.1)]
-    exact ⟨rfl, rfl, rfl, rfl, rfl⟩
+  have hk : key5 ((W2 w O (notF w n)).ths.get i) = key5 (w.ths.get i) := by
+    rw [hg]
+    split
+    · unfold notF
+      split
+      · rfl
+      · split
+        · exact key5_wake _
+        · rfl
+    · rfl
+  exact readers_of_key5 hk
 
 /-! ### the epilogue -/
 
